@@ -911,6 +911,7 @@ func c21Package(c *engine.Ctx, rel string, p *packages.Package) (nTypes, nCond, 
 			continue
 		}
 		nTypes++
+		c.FuncsSeen["("+key+").EncodeBare"], c.FuncsSeen["("+key+").DecodeBare"] = true, true
 		_, er := recvTypeName(gt.encBare)
 		_, dr := recvTypeName(gt.decBare)
 		ge := &genCtx{c: c, pkg: p, rel: rel, recv: er, buf: bufParam(gt.encBare)}
